@@ -556,7 +556,8 @@ class LArray:
             kf = key.fn
             if isinstance(val, LArray):
                 raise Unsupported("mask assignment of an array value")
-            self._set(lambda idx: s_ite(_b(kf(idx)), val, old(idx)))
+            cv = self._store_cast(val)
+            self._set(lambda idx: s_ite(_b(kf(idx)), cv, old(idx)))
             return
         key = self._parse_key(key)
         if any(k is None for k in key):
@@ -629,9 +630,24 @@ class LArray:
             inside = s_and(*cs)
             if inside is False:
                 return old(idx)
-            v = vf(idx) if vf is not None else val
+            v = self._store_cast(vf(idx) if vf is not None else val)
             return s_ite(inside, v, old(idx)) if inside is not True else v
         self._set(g)
+
+    def _store_cast(self, v):
+        """numpy casts an assigned value to the array's dtype: storing a non-integer into an integer array truncates"""
+        tag = str(getattr(self, "dtype_tag", "") or "")
+        if not tag.startswith(("int", "uint")):
+            return v
+        from . import casts
+        if is_sym(v):
+            e = core.zreal(v) if hasattr(core, "zreal") else None
+            if e is not None and casts._is_int_term(e):
+                return v
+            return casts.sx_trunc(v)
+        if isinstance(v, (float, _np.floating)):
+            return int(v)
+        return v
 
     # ---- reductions over a concrete extent
     def sum(self, axis=None, **k):
